@@ -52,6 +52,11 @@ func (m Mutant) overlay(repo string) (map[string][]byte, string) {
 		if !ok {
 			b, err := os.ReadFile(path)
 			if err != nil {
+				if os.IsNotExist(err) && e.Old == "" && e.End == 0 {
+					// a file the change adds (code moved into a new file of the package)
+					out[path] = []byte(e.New)
+					continue
+				}
 				return nil, err.Error()
 			}
 			src = b
